@@ -29,6 +29,9 @@ type Op struct {
 	CrashLabel  string   `json:"crashLabel,omitempty"`
 	Unpinned    bool     `json:"unpinned,omitempty"` // run with every CPU (the parallel runner); crash ops are always pinned to one CPU
 	PreferIndex bool     `json:"preferIndex,omitempty"`
+	// gc while some package's BUILD file does not load: the collection has to fail without touching a record (or keep
+	// every record of what exists once the file is repaired)
+	ExpectFail bool `json:"expectFail,omitempty"`
 	// judge annotations
 	ExpectNoExec bool   `json:"expectNoExec,omitempty"` // C02: only no-op edits since the last successful build of Target
 	// C02: these targets last executed successfully against exactly the inputs they have now (the generator guarantees it
@@ -92,6 +95,7 @@ type runner struct {
 	scratch string
 	seq     int
 	childN  int
+	args    []string // LoadOptions.Args of the project of the history being played
 }
 
 func (r *runner) tmp(prefix string) string {
@@ -106,6 +110,9 @@ func (r *runner) runChild(spec childSpec, pinned bool) (*Obs, error) {
 	ctlDir := r.tmp("ctl")
 	defer os.RemoveAll(ctlDir)
 	spec.Ctl = ctlDir
+	if spec.Args == nil {
+		spec.Args = r.args
+	}
 	os.MkdirAll(filepath.Join(ctlDir, "home"), 0o755)
 	b, _ := json.Marshal(spec)
 	specPath := filepath.Join(ctlDir, "spec.json")
@@ -537,6 +544,7 @@ func (r *runner) play(h *History, po playOpts) *played {
 
 func (r *runner) playIn(h *History, po playOpts, root string) *played {
 	p := h.Proj.clone()
+	r.args = p.flagArgs()
 	res := &played{}
 	if err := p.writeAll(root); err != nil {
 		res.err = err
@@ -625,6 +633,9 @@ func (r *runner) playIn(h *History, po playOpts, root string) *played {
 				emit(fmt.Sprintf("file %d m", n.path(e.Path)), "ok")
 			case "junktemp":
 				emit(fmt.Sprintf("temps %d", e.Val), "ok")
+			case "break", "unbreak":
+				// a half-finished edit of a build file and its completion: between the two the generator places nothing
+				// but collections (ExpectFail), and afterwards the tree is what it was
 			case "blockdir", "unblockdir", "truncindex":
 				// operating-system faults: judge-only histories
 			default:
@@ -641,7 +652,9 @@ func (r *runner) playIn(h *History, po playOpts, root string) *played {
 			scan(root, allGens(p), o)
 			emit(fmt.Sprintf("load %d", b2i(op.PreferIndex)), "ok "+c.world(o))
 		case "gc":
-			flush()
+			if !op.ExpectFail {
+				flush()
+			}
 			before := hashDir(root, filepath.Join(".dawn", "build"))
 			var err error
 			o, err = r.runChild(childSpec{Root: root, Op: "gc", PreferIndex: op.PreferIndex}, false)
@@ -651,6 +664,10 @@ func (r *runner) playIn(h *History, po playOpts, root string) *played {
 			}
 			o.TreeBefore, o.TreeAfter = before, hashDir(root, filepath.Join(".dawn", "build"))
 			scan(root, allGens(p), o)
+			if op.ExpectFail && o.Exit != exitOK {
+				// the collection refused to run: nothing for the model to do; the next build shows every record again
+				break
+			}
 			emit(fmt.Sprintf("gc %d", b2i(op.PreferIndex)), "ok "+c.world(o))
 		case "build":
 			flush()
